@@ -402,7 +402,24 @@ func (env *scratchEnv) decide(rt *rapid.T, rec *kit.Rec, sigPrefix string, src s
 		rec.Failf(rt, sigPrefix+"|not-idempotent", "gombok accepted the package but fails when run again on top of its own output (exit status %d):\n%s\ninput:\n%s", again.Exit, tail(again.Out, 25), src)
 	}
 	if d := compareOutputs("run3", "run4(on top of run3)", last.out, readGenerated(filepath.Join(last.dir, "pa"))); d != "" {
-		rec.Failf(rt, sigPrefix+"|not-idempotent", "running gombok on top of its own output changes it (runs 1-3 on the pristine input agreed with one another): %s\ninput:\n%s", d, src)
+		// Is it the presence of the generated files, or does the output simply vary from
+		// run to run (and runs 1-3 agreed by chance)? Four more runs on pristine copies.
+		for i := 0; i < 4; i++ {
+			dir := filepath.Join(caseDir, fmt.Sprintf("m%d", 5+i), "scratch")
+			if err := env.writeModule(dir, map[string]string{"pa/types.go": src}); err != nil {
+				break
+			}
+			var r cmdResult
+			withBeat(rec, func() { r = gombok(dir, "") })
+			name := fmt.Sprintf("run%d(pristine copy)", 5+i)
+			if r.Exit != 0 || hasPanic(r.Out) {
+				break
+			}
+			if d2 := compareOutputs(runs[0].name, name, runs[0].out, readGenerated(filepath.Join(dir, "pa"))); d2 != "" {
+				rec.Failf(rt, sigPrefix+"|nondeterministic", "gombok run repeatedly on identical input wrote different files (runs 1-3 agreed, %s does not): %s\ninput:\n%s", name, d2, src)
+			}
+		}
+		rec.Failf(rt, sigPrefix+"|not-idempotent", "running gombok on top of its own output changes it (runs 1-3 and four further runs on the pristine input agreed with one another): %s\ninput:\n%s", d, src)
 	}
 	// Whether the output compiles is C07/C08's business; here it is only counted.
 	var b cmdResult
